@@ -81,6 +81,7 @@ fn main() {
             "glob" => globrun::handle(&rest),
             "rxwrap" => globrun::handle_rxwrap(&rest),
             "rxrefs" => globrun::handle_rxrefs(&rest),
+            "rxclasses" => globrun::handle_rxclasses(&rest),
             "oracle" => oracle::handle(&rest),
             "paths" => pathrun::handle(&rest),
             _ => "badcase".to_string(),
